@@ -103,6 +103,14 @@ func (g *GRU) Apply(inputs []tensor.Tensor) ([]tensor.Tensor, error) {
 	prevH := inputs[5]
 	if prevH == nil {
 		prevH = ops.ZeroTensor(1, batchSize, g.hiddenSize)
+	} else {
+		// prevH is reshaped below: work on a copy so that the caller's tensor keeps its shape.
+		clone, ok := prevH.Clone().(tensor.Tensor)
+		if !ok {
+			return nil, ops.ErrTypeAssert("tensor.Tensor", prevH.Clone())
+		}
+
+		prevH = clone
 	}
 
 	// Extract the shape of the hidden dimensions without the bidirectional dimension, as
